@@ -271,21 +271,34 @@ fn mid_line_class(case: &DispatchCase, cx: &mut Ctx) {
     if !case.trains.iter().any(|t| t.to.is_some()) {
         return;
     }
-    const SYMPTOMS: [&str; 9] = [
-        "C04|snapshot|",
-        "C04|plan|opposing-trains-overlap-on-one-segment",
-        "C04|plan|mutually-exclusive-segments-overlap",
-        "C04|plan|order-changed-inside-a-segment",
-        "C04|plan|headway-below-configured-spacing",
-        "C04|timed-paths|",
-        "C05|panic|advance_rewind:The back of train",
-        "C05|panic|advance_rewind:The front of train",
-        "C05|plan|arrival-time-not-finite",
-    ];
+    // (the plan / timed-path symptoms of C04 and the two assertion unwinds of C05 are classified
+    // where they are raised, by the segment or train they name: `ended_links`, `mid_line_panic`)
+    const SYMPTOMS: [&str; 2] = ["C04|snapshot|", "C05|plan|arrival-time-not-finite"];
     for f in cx.fails.iter_mut() {
         if SYMPTOMS.iter().any(|s| f.signature.starts_with(s)) && !f.signature.ends_with(":a-train-ends-its-run-mid-line") {
             f.signature.push_str(":a-train-ends-its-run-mid-line");
         }
+    }
+}
+
+/// The two occupancy assertions of `advance_rewind` name two trains.  Under the first-in-
+/// first-out defect the *follower* on the segment is the train that has ended its run there:
+/// "the back of A was placed prior to the front of the next train B" (B ended), "the front of A
+/// was placed past the back of B" (A ended).  Only then is the unwind filed under the class.
+fn mid_line_panic(case: &DispatchCase, run: &DispatchRun, msg: &str) -> &'static str {
+    let nums: Vec<usize> = msg.split(|c: char| !c.is_ascii_digit()).filter(|w| !w.is_empty()).filter_map(|w| w.parse().ok()).collect();
+    let ends_mid_line = |t: usize| t >= 1 && run.members.get(t - 1).map(|m| case.trains[*m].to.is_some()).unwrap_or(false);
+    let follower = if msg.starts_with("The back of train") {
+        nums.get(1)
+    } else if msg.starts_with("The front of train") {
+        nums.first()
+    } else {
+        None
+    };
+    if follower.map(|t| ends_mid_line(*t)).unwrap_or(false) {
+        ":a-train-ends-its-run-mid-line"
+    } else {
+        ""
     }
 }
 
@@ -339,6 +352,36 @@ fn check_c04_inner(case: &DispatchCase, cx: &mut Ctx) {
         let wins: Vec<Vec<(usize, f64, f64)>> = run.final_paths.iter().map(|p| windows(p)).collect();
         let n = wins.len();
         let tol = 1e-6;
+        // segments on which a train with a mid-line destination ends its run (every segment it
+        // never clears), with their flips and everything declared mutually exclusive with either
+        let mut ended: std::collections::BTreeSet<usize> = Default::default();
+        for (t, p) in run.final_paths.iter().enumerate() {
+            if case.trains[run.members[t]].to.is_none() {
+                continue;
+            }
+            let n_clears = p.iter().filter(|x| x.kind == 1).count();
+            for (j, w) in wins[t].iter().enumerate() {
+                if j + 1 >= n_clears {
+                    for l in [w.0, flip(w.0)] {
+                        ended.insert(l);
+                        for m in 1..links.len() {
+                            if locked(l, m) {
+                                ended.insert(m);
+                                ended.insert(flip(m));
+                            }
+                        }
+                    }
+                }
+            }
+        }
+        ended.remove(&0);
+        let cls = |sig: &str, l1: usize, l2: usize| -> String {
+            if ended.contains(&l1) || ended.contains(&l2) {
+                format!("{sig}:a-train-ends-its-run-mid-line")
+            } else {
+                sig.to_string()
+            }
+        };
         for a in 0..n {
             for b in (a + 1)..n {
                 // trips overlapping in time, opposite directions => a meet had to happen
@@ -352,16 +395,16 @@ fn check_c04_inner(case: &DispatchCase, cx: &mut Ctx) {
                     for wb in &wins[b] {
                         let overlap = wa.2.min(wb.2) - wa.1.max(wb.1);
                         if flip(wa.0) == wb.0 && wa.0 != 0 && overlap > tol {
-                            cx.fail("C04|plan|opposing-trains-overlap-on-one-segment", format!("trains {} and {}: link {} occupied [{}, {}] and its flip {} occupied [{}, {}] (overlap {overlap} s)", a + 1, b + 1, wa.0, wa.1, wa.2, wb.0, wb.1, wb.2));
+                            cx.fail(cls("C04|plan|opposing-trains-overlap-on-one-segment", wa.0, wb.0), format!("trains {} and {}: link {} occupied [{}, {}] and its flip {} occupied [{}, {}] (overlap {overlap} s)", a + 1, b + 1, wa.0, wa.1, wa.2, wb.0, wb.1, wb.2));
                         }
                         if locked(wa.0, wb.0) && overlap > tol {
-                            cx.fail("C04|plan|mutually-exclusive-segments-overlap", format!("trains {} and {}: link {} [{}, {}] vs locked-out link {} [{}, {}]", a + 1, b + 1, wa.0, wa.1, wa.2, wb.0, wb.1, wb.2));
+                            cx.fail(cls("C04|plan|mutually-exclusive-segments-overlap", wa.0, wb.0), format!("trains {} and {}: link {} [{}, {}] vs locked-out link {} [{}, {}]", a + 1, b + 1, wa.0, wa.1, wa.2, wb.0, wb.1, wb.2));
                         }
                         if wa.0 == wb.0 {
                             // same direction: no overtaking inside a segment
                             let (first, second, fi, se) = if wa.1 <= wb.1 { (wa, wb, a, b) } else { (wb, wa, b, a) };
                             if second.2 < first.2 - tol {
-                                cx.fail("C04|plan|order-changed-inside-a-segment", format!("link {}: train {} enters at {} and leaves at {}, train {} enters at {} but leaves at {}", wa.0, fi + 1, first.1, first.2, se + 1, second.1, second.2));
+                                cx.fail(cls("C04|plan|order-changed-inside-a-segment", wa.0, wb.0), format!("link {}: train {} enters at {} and leaves at {}, train {} enters at {} but leaves at {}", wa.0, fi + 1, first.1, first.2, se + 1, second.1, second.2));
                             }
                         }
                     }
@@ -386,7 +429,7 @@ fn check_c04_inner(case: &DispatchCase, cx: &mut Ctx) {
                 if w[0].2 && w[1].2 && w[0].1 != w[1].1 {
                     let gap = w[1].0 - w[0].0;
                     if gap < SPACING - 1e-6 {
-                        cx.fail("C04|plan|headway-below-configured-spacing", format!("link {l}: train {} enters at {} and train {} follows at {} (gap {gap} s < {SPACING} s)", w[0].1 + 1, w[0].0, w[1].1 + 1, w[1].0));
+                        cx.fail(cls("C04|plan|headway-below-configured-spacing", l, l), format!("link {l}: train {} enters at {} and train {} follows at {} (gap {gap} s < {SPACING} s)", w[0].1 + 1, w[0].0, w[1].1 + 1, w[1].0));
                     }
                 }
             }
@@ -416,7 +459,7 @@ fn check_c04_inner(case: &DispatchCase, cx: &mut Ctx) {
                             let b_end = plan[b].get(ib + 1).map(|x| x.time.value).unwrap_or(eb.time.value);
                             let overlap = a_end.min(b_end) - ea.time.value.max(eb.time.value);
                             if overlap > tol {
-                                cx.fail("C04|timed-paths|fronts-of-opposing-trains-inside-one-segment", format!("trains {} and {}: link {} front inside [{}, {}], flip {} front inside [{}, {}]", a + 1, b + 1, ea.link_idx.idx(), ea.time.value, a_end, eb.link_idx.idx(), eb.time.value, b_end));
+                                cx.fail(cls("C04|timed-paths|fronts-of-opposing-trains-inside-one-segment", ea.link_idx.idx(), eb.link_idx.idx()), format!("trains {} and {}: link {} front inside [{}, {}], flip {} front inside [{}, {}]", a + 1, b + 1, ea.link_idx.idx(), ea.time.value, a_end, eb.link_idx.idx(), eb.time.value, b_end));
                             }
                         }
                     }
@@ -453,7 +496,7 @@ fn check_c05_inner(case: &DispatchCase, cx: &mut Ctx) {
         if p.msg.contains("HARNESS-LIVELOCK") {
             cx.fail("C05|hang|dispatch-loop-repeats-an-identical-state", p.msg.clone());
         } else {
-            cx.fail(format!("C05|panic|{}", p.class()), format!("run_dispatch unwound: {} at {}:{}", p.msg, p.file, p.line));
+            cx.fail(format!("C05|panic|{}{}", p.class(), mid_line_panic(case, &run, &p.msg)), format!("run_dispatch unwound: {} at {}:{}", p.msg, p.file, p.line));
         }
         return;
     }
